@@ -279,12 +279,25 @@ def assigned_names(target: ast.AST) -> List[str]:
     return out
 
 
+_ASSIGN_CACHE: Dict[Tuple[int, str], list] = {}
+
+
 def assignments_to(fn: ast.AST, name: str) -> List[Tuple[ast.stmt, Optional[ast.AST]]]:
     """All (statement, value) pairs that bind local `name` in fn (no nested defs).
 
     value is None for bindings whose value is not a plain expression (for-targets,
     tuple unpacking, with-as, augmented assignment).
     """
+    key = (id(fn), name)
+    hit = _ASSIGN_CACHE.get(key)
+    if hit is not None and hit[0] is fn:
+        return list(hit[1])
+    res = _assignments_to(fn, name)
+    _ASSIGN_CACHE[key] = (fn, res)
+    return list(res)
+
+
+def _assignments_to(fn: ast.AST, name: str) -> List[Tuple[ast.stmt, Optional[ast.AST]]]:
     out: List[Tuple[ast.stmt, Optional[ast.AST]]] = []
     for st in statements(fn):
         if isinstance(st, ast.Assign):
